@@ -227,7 +227,9 @@ def run_correspondence(ck, consts):
         else:
             m, v, out = eval_two(ck, "C03_decoded_%d" % i, DHEADER, "dcase", ks, "dc_check_all")
         return m, v, ([] if m is not None else None), out
-    with ThreadPoolExecutor(max_workers=4) as ex:
+    # the heaviest shards first (one body of 40000 samples dominates its shard)
+    shs.sort(key=lambda ks: -sum(case_weight(c) for c in ks[1]))
+    with ThreadPoolExecutor(max_workers=6) as ex:
         results = list(ex.map(eval_shard, enumerate(shs)))
     for kind, key in (("jcase", "loki_json_documents_walked_in_the_model"), ("dcase", "datadog_log_documents_walked_in_the_model"),
                       ("mcase", "datadog_metric_documents_walked_in_the_model"),
